@@ -54,29 +54,45 @@ Local Notation new_parens := (PrintParse.new_parens mw).
 
 (* HL: the loop level is below the call level, except while parsing the callee of "new"
    (printed at LNew, parsed with strength S_Call) *)
+(* the parser may run with "no in" (ni) on a print made with the forbidIn flag (fp), or on any print
+   at a level at which an "in" expression is parenthesised anyway *)
+Definition flag_ok (ni fp : bool) (P : Z) : Prop := ni = true -> fp = true \/ LCompare <= P.
+Lemma flag_ok_mono ni fp P P' : flag_ok ni fp P -> P <= P' -> flag_ok ni fp P'.
+Proof. intros H Hle Hn. destruct (H Hn) as [E|E]; [left; exact E | right; lia]. Qed.
+Lemma flag_ok_off fp P : flag_ok false fp P.
+Proof. intro H. discriminate. Qed.
+Lemma flag_ok_high ni fp P : LCompare <= P -> flag_ok ni fp P.
+Proof. intros H _. right. exact H. Qed.
+
 Definition Gen (e : expr) : Prop :=
-  forall P L rest res, 0 <= P -> (L < S_Call \/ P = LNew) -> L <= S_Call -> lv_ok L P e -> fol P rest = true ->
-    PSx L (norm e) (ll_of P e) rest res -> PEx L (toks (print_items P e) ++ rest) res.
+  forall fp ni P L rest res, flag_ok ni fp P -> 0 <= P -> (L < S_Call \/ P = LNew) -> L <= S_Call -> lv_ok fp L P e -> fol P rest = true ->
+    PSx ni L (norm e) (ll_of fp P e) rest res -> PEx ni L (toks (print_items fp P e) ++ rest) res.
 Definition Unw (e : expr) : Prop :=
-  forall Pb P L rest res, 0 <= P -> P < lvl e -> (forall f a, e = ENew f a -> P = Pb \/ LPostfix <= Pb) ->
-    (L < S_Call \/ P = LNew) -> L <= S_Call -> lv_ok L P e -> fol P rest = true ->
-    PSx L (norm e) (strat Pb e) rest res -> PEx L (toks (body Pb e) ++ rest) res.
+  forall fb ni Pb P L rest res, flag_ok ni fb P -> is_in e && fb = false ->
+    0 <= P -> P < lvl e -> (forall f a, e = ENew f a -> P = Pb \/ LPostfix <= Pb) ->
+    (L < S_Call \/ P = LNew) -> L <= S_Call -> lv_ok fb L P e -> fol P rest = true ->
+    PSx ni L (norm e) (strat Pb e) rest res -> PEx ni L (toks (body fb Pb e) ++ rest) res.
 Definition GenArgs (a : expr) : Prop :=
-  forall rest, PAx (toks (print_items LComma a) ++ TP [41] :: rest) (norm a, rest).
+  forall rest, PAx (toks (print_items false LComma a) ++ TP [41] :: rest) (norm a, rest).
+
+Lemma unw_not_wrapped fb P e : compound e = true -> P < lvl e -> is_in e && fb = false -> wrapped fb P e = false.
+Proof.
+  intros Hc HP Hin. unfold wrapped. rewrite Hc, Hin, orb_false_r. simpl. rewrite Z.geb_leb. apply Z.leb_gt. exact HP.
+Qed.
 
 Lemma compound_lvl e : compound e = true -> 1 <= lvl e <= LCall.
 Proof.
   destruct e; simpl; intro H; try discriminate; try (pose proof (op_level_pos o)); unfold LConditional, LNew, LCall; lia.
 Qed.
 
-Lemma lv_ok_low e : lv_ok 0 0 e /\ lv_ok 3 LYield e /\ lv_ok 3 LComma e.
+Lemma lv_ok_low fp e : lv_ok fp 0 0 e /\ lv_ok fp 3 LYield e /\ lv_ok fp 3 LComma e.
 Proof.
   destruct e as [| | | |u w|o2 a b2|c0 y0 n0| |f0 a0| | |]; simpl; auto; repeat split;
     try (right; unfold S_Update, S_Call; lia).
   - right. pose proof (op_level_pos o2). lia.
-  - destruct (LYield >=? op_level o2) eqn:E; [left; unfold wrapped; simpl; exact E|]. right.
+  - destruct (LYield >=? op_level o2) eqn:E; [left; apply wrapped_level; [reflexivity | exact E]|]. right.
     rewrite Z.geb_leb in E. apply Z.leb_gt in E. unfold LYield in E. lia.
-  - destruct (LComma >=? op_level o2) eqn:E; [left; unfold wrapped; simpl; exact E|]. right.
+  - destruct (LComma >=? op_level o2) eqn:E; [left; apply wrapped_level; [reflexivity | exact E]|]. right.
     rewrite Z.geb_leb in E. apply Z.leb_gt in E. unfold LComma in E.
     assert (op_level o2 <> 2 /\ op_level o2 <> 3) by (destruct o2; vm_compute; split; discriminate). lia.
   - right. unfold LConditional, LYield. lia.
@@ -86,46 +102,48 @@ Qed.
 
 Lemma gen_of_unw e : compound e = true -> Unw e -> Gen e.
 Proof.
-  intros Hc U P L rest res HP HL HL2 Hlv Hf Hs.
-  rewrite print_items_split. unfold PrintParse.ll_of in Hs. destruct (wrapped P e) eqn:W.
+  intros Hc U fp ni P L rest res Hfl HP HL HL2 Hlv Hf Hs.
+  rewrite print_items_split. unfold PrintParse.ll_of in Hs. destruct (wrapped fp P e) eqn:W.
   - rewrite !toks_app, <- !app_assoc. change (toks [IOpen]) with [TP [40]]. change (toks [IClose]) with [TP [41]].
     simpl app.
     destruct open_tok as (O0 & O1 & O2 & O3). destruct close_tok as (C1 & C2 & C3 & C4).
-    apply (E_paren L (TP [40]) _ (norm e) (TP [41]) rest res O0 O1 O2 O3); [|exact C4|exact Hs].
+    apply (E_paren ni L (TP [40]) _ (norm e) (TP [41]) rest res O0 O1 O2 O3); [|exact C4|exact Hs].
     pose proof (compound_lvl e Hc) as Hl.
-    apply (U P 0 0); try lia.
-    + intros f a E. subst e. right. unfold wrapped in W. simpl in W. rewrite Z.geb_leb in W. apply Z.leb_le in W.
+    apply (U false false P 0 0); try lia.
+    + apply flag_ok_off.
+    + intros f a E. subst e. right. unfold wrapped in W. simpl in W. rewrite orb_false_r in W. rewrite Z.geb_leb in W. apply Z.leb_le in W.
       unfold LPostfix, LCall in *. lia.
     + left. unfold S_Call. lia.
     + unfold S_Call. lia.
     + apply lv_ok_low.
     + reflexivity.
     + apply S_stop. reflexivity.
-  - unfold wrapped in W. rewrite Hc in W. simpl in W. rewrite Z.geb_leb in W. apply Z.leb_gt in W.
-    apply (U P P L); try assumption. intros f a _. left. reflexivity.
+  - destruct (unwrapped_level fp P e Hc W) as [W1 W2].
+    apply (U fp ni P P L); try assumption. intros f a _. left. reflexivity.
 Qed.
 
 Lemma target_shape v : is_target v = true -> compound v = false /\ strat 0 v = S_Member.
 Proof. destruct v; simpl; intro H; try discriminate; split; reflexivity. Qed.
 
 (* what a member access / call is applied to: printed at LPostfix, or at LNew under the isNewTarget flag *)
-Lemma targetT L T t : (T = LPostfix /\ L < S_Call) \/ T = LNew -> lv_ok L T t /\ S_Call <=? ll_of T t = true.
+Lemma targetT fp L T t : (T = LPostfix /\ L < S_Call) \/ T = LNew -> lv_ok fp L T t /\ S_Call <=? ll_of fp T t = true.
 Proof.
   intro HT. split.
   - destruct t as [| | | |u w|o2 a b2|c0 y0 n0| |f0 a0| | |]; simpl; auto.
-    + left. unfold wrapped. simpl. rewrite Z.geb_leb. apply Z.leb_le. pose proof (op_level_pos u).
+    + left. apply wrapped_level; [reflexivity|]. simpl. rewrite Z.geb_leb. apply Z.leb_le. pose proof (op_level_pos u).
       destruct HT as [[E _]|E]; subst T; unfold LPostfix, LNew; lia.
-    + left. unfold wrapped. simpl. rewrite Z.geb_leb. apply Z.leb_le. pose proof (op_level_pos o2).
+    + left. apply wrapped_level; [reflexivity|]. simpl. rewrite Z.geb_leb. apply Z.leb_le. pose proof (op_level_pos o2).
       destruct HT as [[E _]|E]; subst T; unfold LPostfix, LNew; lia.
     + left. destruct HT as [[E _]|E]; subst T; reflexivity.
     + destruct HT as [[E HL]|E]; subst T; [right; exact HL | left; reflexivity].
   - apply Z.leb_le. assert (HT19 : 19 <= T <= 20) by (destruct HT as [[E _]|E]; subst T; unfold LPostfix, LNew; lia).
-    unfold PrintParse.ll_of. destruct (wrapped T t) eqn:W; [unfold S_Call, S_Member; lia|].
-    unfold wrapped in W.
-    destruct t as [| | | |u w|o2 a b2|c0 y0 n0| |f0 a0|f0 a0| |]; simpl in *; unfold S_Member, S_Call in *; try lia.
-    + rewrite Z.geb_leb in W. apply Z.leb_gt in W. pose proof (op_level_pos u). lia.
-    + rewrite Z.geb_leb in W. apply Z.leb_gt in W. pose proof (op_level_pos o2). lia.
-    + rewrite Z.geb_leb in W. apply Z.leb_gt in W. unfold LConditional in W. lia.
+    unfold PrintParse.ll_of. destruct (wrapped fp T t) eqn:W; [unfold S_Call, S_Member; lia|].
+    destruct (compound t) eqn:Hct; [|destruct t; try discriminate; simpl; unfold S_Member, S_Call; lia].
+    destruct (unwrapped_level fp T t Hct W) as [W1 _]. clear W. rename W1 into W.
+    destruct t as [| | | |u w|o2 a b2|c0 y0 n0| |f0 a0|f0 a0| |]; simpl in *; unfold S_Member, S_Call in *; try lia; try discriminate.
+    + pose proof (op_level_pos u). lia.
+    + pose proof (op_level_pos o2). lia.
+    + unfold LConditional in W. lia.
     + unfold PrintParse.new_parens. replace (T >=? LPostfix) with true by (symmetry; rewrite Z.geb_leb; apply Z.leb_le; unfold LPostfix; lia).
       rewrite orb_true_r. unfold S_Member. lia.
 Qed.
@@ -137,10 +155,10 @@ Proof.
   left. split; [reflexivity|]. apply Z.eqb_neq in E. destruct HL as [HL|HL]; [exact HL | contradiction].
 Qed.
 
-Lemma operand17 L t : wf t -> L < S_Update -> lv_ok L (LPrefix - 1) t.
+Lemma operand17 fp L t : wf t -> L < S_Update -> lv_ok fp L (LPrefix - 1) t.
 Proof.
   intros Hw HL. destruct t as [| | | |u w|o2 a b2|c0 y0 n0| |f0 a0| | |]; simpl; auto.
-  - left. unfold wrapped. simpl. rewrite Z.geb_leb. apply Z.leb_le.
+  - left. apply wrapped_level; [reflexivity|]. simpl. rewrite Z.geb_leb. apply Z.leb_le.
     destruct Hw as (_ & _ & Hk & _). destruct (bin_level o2 Hk) as (Hle & _). unfold LPrefix. lia.
   - right. unfold S_Update, S_Call in *. lia.
 Qed.
@@ -177,17 +195,18 @@ Proof.
   induction e as [s|s|b f|t IHt s|o v IHv|o l IHl r IHr|c IHc y IHy n IHn|t IHt i IHi|f IHf a IHa|f IHf a IHa| |x IHx r IHr];
     (split; [intros Hwf Hcn; try (destruct Hwf; fail) | intros Hwa Hcn; try (destruct Hwa; fail)]).
   - (* identifier *)
-    intros P L rest res HP HL HL2 Hlv Hf Hs. simpl in *. destruct Hwf as [_ Hr].
-    apply (E_atom L (TId s) rest (EId s)); [apply is_new_word; exact Hr | apply find_op_word; exact Hr | simpl; rewrite Hr; reflexivity | exact Hs].
-  - intros P L rest res HP HL HL2 Hlv Hf Hs. simpl in *.
-    apply (E_atom L (TNum s) rest (ENum s)); [reflexivity | apply find_op_num | reflexivity | exact Hs].
-  - intros P L rest res HP HL HL2 Hlv Hf Hs. simpl in *.
-    apply (E_atom L (TRe b f) rest (ERe b f)); [reflexivity | apply find_op_re | reflexivity | exact Hs].
+    intros fp ni P L rest res Hfl HP HL HL2 Hlv Hf Hs. simpl in *. destruct Hwf as [_ Hr].
+    apply (E_atom ni L (TId s) rest (EId s)); [apply is_new_word; exact Hr | apply find_op_word; exact Hr | simpl; rewrite Hr; reflexivity | exact Hs].
+  - intros fp ni P L rest res Hfl HP HL HL2 Hlv Hf Hs. simpl in *.
+    apply (E_atom ni L (TNum s) rest (ENum s)); [reflexivity | apply find_op_num | reflexivity | exact Hs].
+  - intros fp ni P L rest res Hfl HP HL HL2 Hlv Hf Hs. simpl in *.
+    apply (E_atom ni L (TRe b f) rest (ERe b f)); [reflexivity | apply find_op_re | reflexivity | exact Hs].
   - (* member access *)
-    intros P L rest res HP HL HL2 Hlv Hf Hs. destruct Hwf as (Hwt & Hs1 & Hs2). simpl in Hcn.
+    intros fp ni P L rest res Hfl HP HL HL2 Hlv Hf Hs. destruct Hwf as (Hwt & Hs1 & Hs2). simpl in Hcn.
     cbn [Token.print_items]. rewrite toks_app, <- app_assoc. change (toks [IDot s]) with [TP [46]; TId s]. simpl app.
-    destruct (targetT L (tgt_level P) t (tgt_level_cases P L HL)) as [Hlt Hll].
-    apply (proj1 IHt Hwt Hcn (tgt_level P) L); try assumption.
+    destruct (targetT false L (tgt_level P) t (tgt_level_cases P L HL)) as [Hlt Hll].
+    apply (proj1 IHt Hwt Hcn false ni (tgt_level P) L); try assumption.
+    + apply flag_ok_high. unfold tgt_level. destruct (P =? LNew); unfold LNew, LPostfix, LCompare; lia.
     + unfold tgt_level. destruct (P =? LNew); unfold LNew, LPostfix; lia.
     + unfold tgt_level. destruct (P =? LNew) eqn:E; [right; reflexivity|]. left.
       destruct HL as [HL|HL]; [exact HL|]. apply Z.eqb_neq in E. contradiction.
@@ -195,16 +214,17 @@ Proof.
     + apply S_dot; [reflexivity | exact Hll | exact Hs].
   - (* unary *)
     apply gen_of_unw; [reflexivity|].
-    intros Pb P L rest res HP HPl _ HL HL2 Hlv Hf Hs. destruct Hwf as (Hwv & Hku & Hupd). simpl in Hcn.
+    intros fb ni Pb P L rest res Hfl Hin HP HPl _ HL HL2 Hlv Hf Hs. destruct Hwf as (Hwv & Hku & Hupd). simpl in Hcn.
     rewrite body_un. simpl lvl in *. simpl norm in Hs. simpl PrintParse.strat in Hs.
     assert (HL19 : L < S_Update).
-    { destruct Hlv as [W|W]; [|exact W]. unfold wrapped in W. simpl in W. rewrite Z.geb_leb in W. apply Z.leb_le in W. lia. }
+    { destruct Hlv as [W|W]; [|exact W]. rewrite (unw_not_wrapped fb P (EUn o v) eq_refl HPl Hin) in W. discriminate. }
     destruct (op_kind o) eqn:Ek.
     + (* prefix *)
       destruct (pre_tok o Ek) as (T0 & T1 & T2). rewrite (pre_level o Ek) in *.
       rewrite toks_app, <- app_assoc. change (toks [IOp o]) with (toks_of (IOp o) ++ []). rewrite T2. simpl app.
-      apply (E_prefix L (op_tok o) _ o (norm v) rest res T0 T1); [apply Z.leb_gt; unfold S_New, S_Update in *; lia| | |exact Hs].
-      * apply (proj1 IHv Hwv Hcn (LPrefix - 1) S_Unary); try (unfold LPrefix, S_Unary, S_Update, S_Call; lia).
+      apply (E_prefix ni L (op_tok o) _ o (norm v) rest res T0 T1); [apply Z.leb_gt; unfold S_New, S_Update in *; lia| | |exact Hs].
+      * apply (proj1 IHv Hwv Hcn false false (LPrefix - 1) S_Unary); try (unfold LPrefix, S_Unary, S_Update, S_Call; lia).
+        -- apply flag_ok_off.
         -- apply operand17; [exact Hwv | unfold S_Unary, S_Update; lia].
         -- apply (fol_weaken P); [unfold LPrefix, S_Unary in *; lia | exact Hf].
         -- apply S_stop. apply (fol_stop P); [exact Hf | unfold LPrefix, S_Unary in *; lia | unfold S_Unary in *; lia|].
@@ -214,42 +234,51 @@ Proof.
       destruct (post_tok o Ek) as (T1 & T2 & T3). destruct (post_level o Ek) as [El Eu]. rewrite El in *.
       specialize (Hupd Eu). destruct (target_shape v Hupd) as [Hcv Hlv'].
       rewrite toks_app, <- app_assoc. change (toks [IOp o]) with (toks_of (IOp o) ++ []). rewrite T3. simpl app.
-      apply (proj1 IHv Hwv Hcn (LPostfix - 1) L); try assumption.
+      apply (proj1 IHv Hwv Hcn false ni (LPostfix - 1) L); try assumption.
+      * apply flag_ok_high. unfold LPostfix, LCompare. lia.
       * unfold LPostfix. lia.
       * left. unfold S_Update, S_Call in *. lia.
       * destruct v; simpl in *; auto; discriminate.
       * rewrite (fol_post o _ _ Ek). reflexivity.
-      * apply (S_post L (norm v) _ (op_tok o) o rest res T1 T2); [apply Z.leb_gt; exact HL19| |exact Hs].
+      * apply (S_post ni L (norm v) _ (op_tok o) o rest res T1 T2); [apply Z.leb_gt; exact HL19| |exact Hs].
         rewrite is_target_norm, Hupd. unfold PrintParse.ll_of, wrapped. rewrite Hcv. simpl.
         destruct v; try discriminate; reflexivity.
     + congruence.
   - (* binary *)
     apply gen_of_unw; [reflexivity|].
-    intros Pb P L rest res HP HPl _ HL HL2 Hlv Hf Hs. destruct Hwf as (Hwl & Hwr & Hk & Hta). destruct Hcn as (Hcl & Hcr & Hcm).
+    intros fb ni Pb P L rest res Hfl Hin HP HPl _ HL HL2 Hlv Hf Hs. destruct Hwf as (Hwl & Hwr & Hk & Hta). destruct Hcn as (Hcl & Hcr & Hcm).
     rewrite body_bin. simpl lvl in *. rewrite (norm_bin o l r Hcm) in Hs. simpl PrintParse.strat in Hs.
     destruct (bin_tok o Hk) as (T1 & T2 & T3 & T4). destruct (bin_level o Hk) as (B1 & B2 & B3).
     assert (HLo : L < op_level o).
-    { destruct Hlv as [W|W]; [|exact W]. unfold wrapped in W. simpl in W. rewrite Z.geb_leb in W. apply Z.leb_le in W. lia. }
+    { destruct Hlv as [W|W]; [|exact W]. rewrite (unw_not_wrapped fb P (EBin o l r) eq_refl HPl Hin) in W. discriminate. }
+    assert (Hni : ni && op_eqb o BIn = false).
+    { destruct ni; [|reflexivity]. simpl. destruct (Hfl eq_refl) as [E|E].
+      - subst fb. simpl in Hin. rewrite andb_true_r in Hin. exact Hin.
+      - destruct (op_eqb o BIn) eqn:Eo; [|reflexivity]. assert (o = BIn) by (destruct o; try discriminate; reflexivity). subst o.
+        exfalso. change (op_level BIn) with 13 in HPl. unfold LCompare in E. lia. }
     assert (HLc : L < S_Call) by (unfold S_Call; lia).
     rewrite !toks_app, <- !app_assoc. change (toks [IOp o]) with (toks_of (IOp o) ++ []). rewrite T4. simpl app.
     pose proof (left_lvl_ge o l) as Hll. pose proof (right_lvl_ge o r Hk) as Hrl.
-    apply (proj1 IHl Hwl Hcl (left_lvl o l) L); try assumption; try lia.
+    apply (proj1 IHl Hwl Hcl fb ni (left_lvl o l) L); try assumption; try lia.
+    + apply (flag_ok_mono ni fb P); [exact Hfl | unfold lpl in Hll; destruct (is_right_assoc o); lia].
     + destruct l as [| | | |u w|o2 a b2|c0 y0 n0| |f0 a0| | |]; simpl; auto.
       * right. unfold S_Update. lia.
-      * unfold wrapped. simpl. destruct (left_lvl o (EBin o2 a b2) >=? op_level o2) eqn:E; [left; reflexivity|].
+      * destruct (left_lvl o (EBin o2 a b2) >=? op_level o2) eqn:E; [left; apply wrapped_level; [reflexivity | exact E]|].
         right. rewrite Z.geb_leb in E. apply Z.leb_gt in E. unfold lpl in Hll. destruct (is_right_assoc o); lia.
       * (* a conditional as left operand: parenthesised except under a comma *)
-        unfold wrapped. simpl. destruct (left_lvl o (ECond c0 y0 n0) >=? LConditional) eqn:E; [left; reflexivity|].
+        destruct (left_lvl o (ECond c0 y0 n0) >=? LConditional) eqn:E; [left; apply wrapped_level; [reflexivity | exact E]|].
         right. rewrite Z.geb_leb in E. apply Z.leb_gt in E.
         destruct (is_assign o) eqn:Ea; [specialize (Hta eq_refl); discriminate|].
         assert (Hlow : (left_lvl o (ECond c0 y0 n0) = 0 /\ op_level o = 1) \/ LConditional <= left_lvl o (ECond c0 y0 n0)).
         { clear -Hk Ea. destruct o; try discriminate; vm_compute; auto; right; discriminate. }
         unfold LConditional, LYield in *. destruct Hlow as [[Hlow Hl1]|Hlow]; lia.
     + rewrite (fol_bin o _ _ Hk). apply Z.leb_le. exact Hll.
-    + apply (S_bin L (norm l) _ (op_tok o) o _ (norm r) rest res T1 T2 T3).
+    + apply (S_bin ni L (norm l) _ (op_tok o) o _ (norm r) rest res T1 T2 T3).
       * rewrite spec_level_is_op_level. apply Z.leb_gt. exact HLo.
+      * exact Hni.
       * apply left_ok_print; assumption.
-      * apply (proj1 IHr Hwr Hcr (right_lvl o r) (right_level o)); try (unfold S_Call; lia).
+      * apply (proj1 IHr Hwr Hcr fb ni (right_lvl o r) (right_level o)); try (unfold S_Call; lia).
+        -- apply (flag_ok_mono ni fb P); [exact Hfl | lia].
         -- apply right_ok_print; assumption.
         -- apply (fol_weaken P); [lia | exact Hf].
         -- apply S_stop. apply (fol_stop P); [exact Hf | unfold LPrefix; lia | |].
@@ -258,77 +287,84 @@ Proof.
       * rewrite spec_level_is_op_level. exact Hs.
   - (* conditional *)
     apply gen_of_unw; [reflexivity|].
-    intros Pb P L rest res HP HPl _ HL HL2 Hlv Hf Hs. destruct Hwf as (Hwc & Hwy & Hwn). destruct Hcn as (Hcc & Hcy & Hcn).
+    intros fb ni Pb P L rest res Hfl Hin HP HPl _ HL HL2 Hlv Hf Hs. destruct Hwf as (Hwc & Hwy & Hwn). destruct Hcn as (Hcc & Hcy & Hcn).
     rewrite body_cond. simpl lvl in *. simpl norm in Hs. simpl PrintParse.strat in Hs.
     assert (HL5 : L < LConditional /\ P <= LYield).
-    { destruct Hlv as [W|W]; [|exact W]. unfold wrapped in W. simpl in W. rewrite Z.geb_leb in W. apply Z.leb_le in W. lia. }
+    { destruct Hlv as [W|W]; [|exact W]. rewrite (unw_not_wrapped fb P (ECond c y n) eq_refl HPl Hin) in W. discriminate. }
     destruct HL5 as [HL5 HP3].
     assert (HLc : L < S_Call) by (unfold S_Call, LConditional in *; lia).
     rewrite !toks_app, <- !app_assoc. change (toks [IQuest]) with [TP [63]]. change (toks [IColon]) with [TP [58]]. simpl app.
-    apply (proj1 IHc Hwc Hcc LConditional L); try assumption.
+    assert (Hfl3 : flag_ok ni fb LYield).
+    { intro Hn. destruct (Hfl Hn) as [E|E]; [left; exact E | unfold LCompare, LYield in *; lia]. }
+    apply (proj1 IHc Hwc Hcc fb ni LConditional L); try assumption.
     + unfold LConditional. lia.
     + left. exact HLc.
     + destruct c as [| | | |u w|o2 a b2|c0 y0 n0| |f0 a0| | |]; simpl; auto.
       * right. unfold S_Update, LConditional in *. lia.
-      * unfold wrapped. simpl. destruct (LConditional >=? op_level o2) eqn:E; [left; reflexivity|].
+      * destruct (LConditional >=? op_level o2) eqn:E; [left; apply wrapped_level; [reflexivity | exact E]|].
         right. rewrite Z.geb_leb in E. apply Z.leb_gt in E. lia.
     + reflexivity.
-    + destruct (colon_stop 3 (toks (print_items LYield n) ++ rest)) as [Cs Cf].
-      destruct (lv_ok_low y) as (_ & Ly & _). destruct (lv_ok_low n) as (_ & Ln & _).
-      apply (S_cond L (norm c) _ (TP [63]) _ (norm y) (TP [58]) (toks (print_items LYield n) ++ rest) (norm n) rest res);
+    + destruct (colon_stop 3 (toks (print_items fb LYield n) ++ rest)) as [Cs Cf].
+      destruct (lv_ok_low false y) as (_ & Ly & _). destruct (lv_ok_low fb n) as (_ & Ln & _).
+      apply (S_cond ni L (norm c) _ (TP [63]) _ (norm y) (TP [58]) (toks (print_items fb LYield n) ++ rest) (norm n) rest res);
         try reflexivity.
       * apply Z.leb_gt. unfold S_Cond, LConditional in *. lia.
-      * apply Z.ltb_lt. pose proof (ll_of_ge mw LConditional c). unfold S_Cond, S_Member, LConditional in *. lia.
-      * apply (proj1 IHy Hwy Hcy LYield 3); try assumption; try (unfold LYield, S_Call; lia).
-        apply S_stop. exact Cs.
-      * apply (proj1 IHn Hwn Hcn LYield 3); try assumption; try (unfold LYield, S_Call; lia).
+      * apply Z.ltb_lt. pose proof (ll_of_ge mw fb LConditional c). unfold S_Cond, S_Member, LConditional in *. lia.
+      * apply (proj1 IHy Hwy Hcy false false LYield 3); try assumption; try (unfold LYield, S_Call; lia).
+        -- apply flag_ok_off.
+        -- apply S_stop. exact Cs.
+      * apply (proj1 IHn Hwn Hcn fb ni LYield 3); try assumption; try (unfold LYield, S_Call; lia).
         -- apply (fol_weaken P); [exact HP3 | exact Hf].
         -- apply S_stop. apply (fol_stop P); [exact Hf | unfold LPrefix, LYield in *; lia | unfold LYield in *; lia|].
            intros o' Hk' Hl'. apply low_ops_stop; [exact Hk' | lia].
       * exact Hs.
   - (* index access *)
-    intros P L rest res HP HL HL2 Hlv Hf Hs. destruct Hwf as (Hwt & Hwi). destruct Hcn as (Hct & Hci).
+    intros fp ni P L rest res Hfl HP HL HL2 Hlv Hf Hs. destruct Hwf as (Hwt & Hwi). destruct Hcn as (Hct & Hci).
     cbn [Token.print_items]. rewrite !toks_app, <- !app_assoc. change (toks [ILBrack]) with [TP [91]]. change (toks [IRBrack]) with [TP [93]]. simpl app.
-    destruct (targetT L (tgt_level P) t (tgt_level_cases P L HL)) as [Hlt Hll].
-    apply (proj1 IHt Hwt Hct (tgt_level P) L); try assumption.
+    destruct (targetT false L (tgt_level P) t (tgt_level_cases P L HL)) as [Hlt Hll].
+    apply (proj1 IHt Hwt Hct false ni (tgt_level P) L); try assumption.
+    + apply flag_ok_high. unfold tgt_level. destruct (P =? LNew); unfold LNew, LPostfix, LCompare; lia.
     + unfold tgt_level. destruct (P =? LNew); unfold LNew, LPostfix; lia.
     + unfold tgt_level. destruct (P =? LNew) eqn:E; [right; reflexivity|]. left.
       destruct HL as [HL|HL]; [exact HL|]. apply Z.eqb_neq in E. contradiction.
     + unfold tgt_level. destruct (P =? LNew); reflexivity.
-    + destruct (rbrack_stop 0 rest) as [Rs Rf]. destruct (lv_ok_low i) as (Li & _).
-      apply (S_index L (norm t) _ (TP [91]) _ (norm i) (TP [93]) rest res); try reflexivity; try assumption.
-      apply (proj1 IHi Hwi Hci 0 0); try assumption; try (unfold S_Call; lia).
-      apply S_stop. exact Rs.
+    + destruct (rbrack_stop 0 rest) as [Rs Rf]. destruct (lv_ok_low false i) as (Li & _).
+      apply (S_index ni L (norm t) _ (TP [91]) _ (norm i) (TP [93]) rest res); try reflexivity; try assumption.
+      apply (proj1 IHi Hwi Hci false false 0 0); try assumption; try (unfold S_Call; lia).
+      * apply flag_ok_off.
+      * apply S_stop. exact Rs.
   - (* call *)
     apply gen_of_unw; [reflexivity|].
-    intros Pb P L rest res HP HPl _ HL HL2 Hlv Hf Hs. destruct Hwf as (Hwf' & Hwa). destruct Hcn as (Hcf & Hca).
+    intros fb ni Pb P L rest res Hfl Hin HP HPl _ HL HL2 Hlv Hf Hs. destruct Hwf as (Hwf' & Hwa). destruct Hcn as (Hcf & Hca).
     rewrite body_call. simpl lvl in *. simpl norm in Hs. simpl PrintParse.strat in Hs.
     assert (HLc : L < S_Call).
-    { destruct Hlv as [W|W]; [|exact W]. unfold wrapped in W. simpl in W. rewrite Z.geb_leb in W. apply Z.leb_le in W. lia. }
+    { destruct Hlv as [W|W]; [|exact W]. rewrite (unw_not_wrapped fb P (ECall f a) eq_refl HPl Hin) in W. discriminate. }
     rewrite !toks_app, <- !app_assoc. change (toks [ICallOpen]) with [TP [40]]. change (toks [IClose]) with [TP [41]]. simpl app.
-    destruct (targetT L LPostfix f (or_introl (conj eq_refl HLc))) as [Hlt Hll].
-    apply (proj1 IHf Hwf' Hcf LPostfix L); try assumption.
+    destruct (targetT false L LPostfix f (or_introl (conj eq_refl HLc))) as [Hlt Hll].
+    apply (proj1 IHf Hwf' Hcf false ni LPostfix L); try assumption.
+    + apply flag_ok_high. unfold LPostfix, LCompare. lia.
     + unfold LPostfix. lia.
     + left. exact HLc.
     + reflexivity.
-    + apply (S_call L (norm f) _ (TP [40]) _ (norm a) rest res); try reflexivity.
+    + apply (S_call ni L (norm f) _ (TP [40]) _ (norm a) rest res); try reflexivity.
       * apply Z.leb_gt. exact HLc.
       * exact Hll.
       * apply (proj2 IHa Hwa Hca).
       * exact Hs.
   - (* new *)
     apply gen_of_unw; [reflexivity|].
-    intros Pb P L rest res HP HPl HPb HL HL2 Hlv Hf Hs. destruct Hwf as (Hwf' & Hwa). destruct Hcn as (Hcf & Hca).
+    intros fb ni Pb P L rest res Hfl Hin HP HPl HPb HL HL2 Hlv Hf Hs. destruct Hwf as (Hwf' & Hwa). destruct Hcn as (Hcf & Hca).
     specialize (HPb f a eq_refl).
     unfold PrintParse.body. simpl norm in Hs. simpl PrintParse.strat in Hs.
     rewrite !toks_app, <- !app_assoc. change (toks [INew]) with [TId [110; 101; 119]]. simpl app.
-    destruct (targetT S_Call LNew f (or_intror eq_refl)) as [Hlt _].
+    destruct (targetT false S_Call LNew f (or_intror eq_refl)) as [Hlt _].
     destruct (PrintParse.new_parens mw Pb a) eqn:Enp.
     + (* with an argument list *)
-      change (toks (ICallOpen :: print_items LComma a ++ [IClose])) with (TP [40] :: toks (print_items LComma a ++ [IClose])).
+      change (toks (ICallOpen :: print_items false LComma a ++ [IClose])) with (TP [40] :: toks (print_items false LComma a ++ [IClose])).
       rewrite toks_app. change (toks [IClose]) with [TP [41]]. simpl app. rewrite <- app_assoc. simpl app.
-      apply (E_new_args L (TId [110; 101; 119]) _ (norm f) (TP [40]) (toks (print_items LComma a) ++ TP [41] :: rest) (norm a) rest res); try reflexivity.
-      * apply (proj1 IHf Hwf' Hcf LNew S_Call); try assumption; try (unfold LNew, S_Call; lia).
+      apply (E_new_args ni L (TId [110; 101; 119]) _ (norm f) (TP [40]) (toks (print_items false LComma a) ++ TP [41] :: rest) (norm a) rest res); try reflexivity.
+      * apply (proj1 IHf Hwf' Hcf false false LNew S_Call); try assumption; try (unfold LNew, S_Call; lia).
+        -- apply flag_ok_off.
         -- reflexivity.
         -- apply S_stop. reflexivity.
       * apply (proj2 IHa Hwa Hca).
@@ -339,8 +375,9 @@ Proof.
       assert (a = ANil) by (destruct a; try (destruct Hwa; fail); [reflexivity | discriminate]). subst a.
       assert (HPP : P = Pb) by (destruct HPb as [E|E]; [exact E | lia]). subst Pb.
       simpl app. destruct (fol_no_member P rest Hf Ep19) as [Hst Hno].
-      apply (E_new_bare L (TId [110; 101; 119]) _ (norm f) rest res); try reflexivity.
-      * apply (proj1 IHf Hwf' Hcf LNew S_Call); try assumption; try (unfold LNew, S_Call; lia).
+      apply (E_new_bare ni L (TId [110; 101; 119]) _ (norm f) rest res); try reflexivity.
+      * apply (proj1 IHf Hwf' Hcf false false LNew S_Call); try assumption; try (unfold LNew, S_Call; lia).
+        -- apply flag_ok_off.
         -- apply (fol_weaken P); [unfold LNew, LPostfix in *; lia | exact Hf].
         -- apply S_stop. exact Hst.
       * exact Hno.
@@ -349,18 +386,20 @@ Proof.
     intro rest. simpl. apply A_nil. reflexivity.
   - (* argument list *)
     intro rest. destruct Hwa as (Hwx & Hwr). destruct Hcn as (Hcx & Hcr).
-    cbn [Token.print_items]. simpl norm. destruct (lv_ok_low x) as (_ & _ & Lx).
+    cbn [Token.print_items]. simpl norm. destruct (lv_ok_low false x) as (_ & _ & Lx).
     destruct r as [| | | | | | | | | | |x2 r2]; try (destruct Hwr; fail).
     + (* last argument *)
       rewrite app_nil_r. destruct (close_stop 3 rest) as [Cs Cf].
       apply (A_last _ (norm x) (TP [41]) rest); [|reflexivity].
-      apply (proj1 IHx Hwx Hcx LComma 3); try assumption; try (unfold LComma, S_Call; lia).
-      apply S_stop. exact Cs.
+      apply (proj1 IHx Hwx Hcx false false LComma 3); try assumption; try (unfold LComma, S_Call; lia).
+      * apply flag_ok_off.
+      * apply S_stop. exact Cs.
     + rewrite !toks_app, <- !app_assoc. change (toks [IOp BComma]) with [TP [44]]. simpl app.
-      destruct (comma_stop (toks (print_items LComma (ACons x2 r2)) ++ TP [41] :: rest)) as (Ks & Kf & Kc & Kk).
-      apply (A_more _ (norm x) (TP [44]) (toks (print_items LComma (ACons x2 r2)) ++ TP [41] :: rest) (norm (ACons x2 r2)) rest); [|exact Kc | exact Kk|].
-      * apply (proj1 IHx Hwx Hcx LComma 3); try assumption; try (unfold LComma, S_Call; lia).
-        apply S_stop. exact Ks.
+      destruct (comma_stop (toks (print_items false LComma (ACons x2 r2)) ++ TP [41] :: rest)) as (Ks & Kf & Kc & Kk).
+      apply (A_more _ (norm x) (TP [44]) (toks (print_items false LComma (ACons x2 r2)) ++ TP [41] :: rest) (norm (ACons x2 r2)) rest); [|exact Kc | exact Kk|].
+      * apply (proj1 IHx Hwx Hcx false false LComma 3); try assumption; try (unfold LComma, S_Call; lia).
+        -- apply flag_ok_off.
+        -- apply S_stop. exact Ks.
       * apply (proj2 IHr Hwr Hcr).
 Qed.
 
@@ -368,17 +407,18 @@ Theorem print_parse_gen : forall e, wf e -> cnf e -> Gen e.
 Proof. intros e. apply (proj1 (print_parse_both e)). Qed.
 
 (* ---- whole expressions ---- *)
-Lemma parse_fuel_mono n m ts e : (n <= m)%nat -> parse_fuel n ts = Some e -> parse_fuel m ts = Some e.
+Lemma parse_fuel_mono n m ni ts e : (n <= m)%nat -> parse_fuel n ni ts = Some e -> parse_fuel m ni ts = Some e.
 Proof.
-  unfold parse_fuel. intros Hle H. destruct (parse_expr n 0 ts) as [[e' [|c r]]|] eqn:E; try discriminate.
-  rewrite (parse_expr_mono n m _ _ _ Hle E). exact H.
+  unfold parse_fuel. intros Hle H. destruct (parse_expr n ni 0 ts) as [[e' [|c r]]|] eqn:E; try discriminate.
+  rewrite (parse_expr_mono n m _ _ _ _ Hle E). exact H.
 Qed.
 
-Theorem parse_print_items_cnf e :
-  wf e -> cnf e -> exists n, forall m, (n <= m)%nat -> parse_fuel m (toks (print_items LLowest e)) = Some (norm e).
+Theorem parse_print_items_cnf fi e :
+  wf e -> cnf e -> exists n, forall m, (n <= m)%nat -> parse_fuel m fi (toks (print_items fi LLowest e)) = Some (norm e).
 Proof.
   intros Hwf Hcn.
-  destruct (print_parse_gen e Hwf Hcn LLowest 0 [] (norm e, [])) as [n Hn].
+  destruct (print_parse_gen e Hwf Hcn fi fi LLowest 0 [] (norm e, [])) as [n Hn].
+  - intro H. left. exact H.
   - unfold LLowest. lia.
   - left. unfold S_Call. lia.
   - unfold S_Call. lia.
@@ -386,7 +426,7 @@ Proof.
   - reflexivity.
   - apply S_nil.
   - exists n. intros m Hm. rewrite app_nil_r in Hn. unfold parse_fuel.
-    rewrite (parse_expr_mono n m _ _ _ Hm Hn). reflexivity.
+    rewrite (parse_expr_mono n m _ _ _ _ Hm Hn). reflexivity.
 Qed.
 
 End WithMode.
